@@ -133,6 +133,11 @@ PIN_LASTEND = """let last_end = raw_samples.iter().map(|s| s.end).max().unwrap()
 
 PIN_IGNORE = """crate::alloc::IGNORE_ALLOC.set(false);"""
 
+class Rx(str):
+    """A replaced fragment given as a regular expression instead of exact text."""
+RX_SLOWEST = Rx(r"let\s+slowest_sample\s*=\s*([^;]*);")
+RX_LASTEND = Rx(r"let\s+last_end\s*=\s*([^;]*);")
+
 REPLACED = [
     ("sample_recorder closure creation (closure over self and three generic closures)", PIN_RECORDER, ""),
     ("per-thread raw sample vector", PIN_RAWVEC, ""),
@@ -140,11 +145,13 @@ REPLACED = [
      PIN_ROUND,
      "let raw_samples_vec = run_round(thread_count, aux_thread_count, is_single_thread, sample_size, timer);\n"
      "            let raw_samples: &[RawSample] = raw_samples_vec.as_slice();"),
-    ("iterator max_by_key over the round's samples", PIN_SLOWEST, "let slowest_sample = slowest_of(raw_samples);"),
+    ("the expression picking the round's slowest sample (any `;`-free expression; its text is copied into a Kani shim, see pick_kani)",
+     RX_SLOWEST, "let slowest_sample = slowest_of(raw_samples);"),
     ("closure sample_duration_sub_overhead (outlined verbatim as a function, see outlined_sub_overhead)", PIN_SUBOVERHEAD, ""),
     ("per-input counter bookkeeping loop over KnownCounterKind::ALL (CounterCollection holds boxed closures)", PIN_COUNTERS,
      "push_input_counts(&mut self.counters, raw_sample, sample_size);"),
-    ("iterator map/max over the round's end timestamps", PIN_LASTEND, "let last_end = latest_end_of(raw_samples);"),
+    ("the expression picking the round's latest end timestamp (any `;`-free expression; its text is copied into a Kani shim, see pick_kani)",
+     RX_LASTEND, "let last_end = latest_end_of(raw_samples);"),
     ("reset of the IGNORE_ALLOC atomic flag", PIN_IGNORE, "ignore_alloc_reset();"),
 ]
 
@@ -384,7 +391,7 @@ pub assume_specification[ <FineDuration as core::default::Default>::default ]() 
     f_init = b.find_fn("initial_mode", impl=r"impl<'a> BenchContext<'a>")
     subst = []
     for what, text, rep in REPLACED:
-        subst.append((pin(text), rep.replace("\\", "\\\\"), 1))
+        subst.append((text if isinstance(text, Rx) else pin(text), rep.replace("\\", "\\\\"), 1))
     subst.append((pin("sample_duration_sub_overhead(raw_sample)"),
                   "sample_duration_sub_overhead(raw_sample, bench_overheads, sample_size, timer_precision)", 1))
     subst.append((pin("for raw_sample in raw_samples"), "for raw_sample in it: raw_samples", "first"))
@@ -409,7 +416,9 @@ pub assume_specification[ <FineDuration as core::default::Default>::default ]() 
 # statement needs, so that a change that breaks one statement does not raise an alarm for
 # the others. Lines ending in `//#TAG[,TAG..]` and blocks between `//#BEGIN TAG[,TAG..]` and
 # `//#END` are kept only when one of their tags is enabled:
-#   CONT  full continue-history (every executed round was preceded by a "continue" verdict)   C03 C04
+#   CONT  the continuation rule both ways (stay = cont, stop = !cont)                         C04
+#   CONT3 what "no time limit reached" needs of the loop condition (see stay/stop)            C03
+#   CONT19 tuning ends only on the max_time budget                                            C19
 #   REM   remaining-sample counter in closed form                                             C03 C04
 #   EL    elapsed-time recurrence                                                             C04
 #   MAXT  max_time also bounds the tuning rounds                                              C19
@@ -464,6 +473,22 @@ pub open spec fn sum(s: Seq<int>) -> int decreases s.len() { if s.len() == 0 { 0
 pub open spec fn cont(el: int, rem: Option<u32>, min: int, max: int) -> bool {
     el < max && ((match rem { Some(r) => r > 0, None => true }) || el < min)
 }
+// What each property's statement needs of the loop condition. `stay` must hold at every
+// evaluation that let a round run, `stop` at the evaluation that ended the run.
+//   C04: the rule itself, both ways.
+//   C03: "no time limit reached": once min_time has passed and max_time has not, a round runs only
+//        while samples are expected; and the run never ends below max_time while samples are expected.
+//   C19: tuning (no counter yet) ends only on the max_time budget.
+pub open spec fn stay(el: int, rem: Option<u32>, min: int, max: int) -> bool {
+    cont(el, rem, min, max) //#CONT
+    (min <= el < max ==> (match rem { Some(r) => r > 0, None => true })) //#CONT3
+    true //#CONT19
+}
+pub open spec fn stop(el: int, rem: Option<u32>, min: int, max: int) -> bool {
+    !cont(el, rem, min, max) //#CONT
+    (el < max ==> rem == Some(0u32)) //#CONT3
+    (rem is None ==> el >= max) //#CONT19
+}
 
 // elapsed time after a round (C04): from the initial start timestamp to the latest end
 // timestamp of the newest round, or, with skip_ext_time, the running sum of the slowest
@@ -498,7 +523,7 @@ pub open spec fn hist_wf(h: Hist) -> bool {
 pub open spec fn hist_inv(h: Hist, t: int, n: int, skip: bool, min: int, max: int, prec: int, tune0: bool) -> bool {
     &&& hist_wf(h)
     // every executed round was preceded by a condition evaluation that said "continue"
-    &&& forall|r: int| 0 <= r < h.rounds ==> cont(#[trigger] h.el[r], h.rem[r], min, max) //#CONT
+    &&& forall|r: int| 0 <= r < h.rounds ==> stay(#[trigger] h.el[r], h.rem[r], min, max) //#CONT,CONT3
     // the max_time budget also covers the tuning rounds
     &&& forall|r: int| 0 <= r < h.rounds && (h.first == -1 || r <= h.first) ==> #[trigger] h.el[r] < max //#MAXT
     // elapsed time follows the rule of C04
@@ -583,7 +608,7 @@ OUTER_INV = r"""
         // bench mode: the history invariant, and the loop condition is false now
         !is_test ==> hist_inv(h, t, n, skip, min, max, prec, tune0),
         !is_test ==> link(h, *self, cx0, current_mode, mode0, rem_samples, elapsed_picos, calls, t),
-        !is_test ==> !cont(elapsed_picos as int, rem_samples, min, max),
+        !is_test ==> stop(elapsed_picos as int, rem_samples, min, max),
 """
 
 INNER_INV = r"""
@@ -693,8 +718,8 @@ proof {
         assert(self.samples.time_samples@.len() == recorded(h, t, tune0));
         assert(calls == t * sum(h.size));
         // the number of rounds is the least r at which the rule says stop
-        assert(forall|r: int| 0 <= r < h.rounds ==> cont(#[trigger] h.el[r], h.rem[r], min, max)); //#CONT
-        assert(!cont(h.el[h.rounds], h.rem[h.rounds], min, max));
+        assert(forall|r: int| 0 <= r < h.rounds ==> stay(#[trigger] h.el[r], h.rem[r], min, max)); //#CONT,CONT3
+        assert(stop(h.el[h.rounds], h.rem[h.rounds], min, max));
         lemma_conclusions(h, t, n, skip, min, max, prec, tune0, mode0, calls);
     }
 }
@@ -750,7 +775,7 @@ pub proof fn lemma_round(h: Hist, h2: Hist, t: int, n: int, skip: bool, min: int
         !tune0, //#NOTUNE
         tune0, //#ISTUNE
         hist_inv(h, t, n, skip, min, max, prec, tune0),
-        cont(h.el[h.rounds], h.rem[h.rounds], min, max), //#CONT
+        stay(h.el[h.rounds], h.rem[h.rounds], min, max), //#CONT,CONT3
         h.first == -1 ==> h.el[h.rounds] < max, //#MAXT
         h2 == (Hist { rounds: h.rounds + 1, el: h.el.push(el_new), rem: h.rem.push(rem_new), size: h.size.push(sz),
                       slow: h.slow.push(slow), end: h.end.push(end_d), first: if switched { h.rounds } else { h.first } }),
@@ -779,8 +804,8 @@ pub proof fn lemma_round(h: Hist, h2: Hist, t: int, n: int, skip: bool, min: int
     } else if switched {
         assert(t * (R + 1 - R) == t) by (nonlinear_arith);
     }
-    //#BEGIN CONT
-    assert forall|r: int| 0 <= r < h2.rounds implies cont(#[trigger] h2.el[r], h2.rem[r], min, max) by {
+    //#BEGIN CONT,CONT3
+    assert forall|r: int| 0 <= r < h2.rounds implies stay(#[trigger] h2.el[r], h2.rem[r], min, max) by {
         if r < R { assert(h2.el[r] == h.el[r] && h2.rem[r] == h.rem[r]); } else { assert(h2.el[r] == h.el[R] && h2.rem[r] == h.rem[R]); }
     }
     //#END
@@ -867,13 +892,13 @@ pub proof fn lemma_conclusions(h: Hist, t: int, n: int, skip: bool, min: int, ma
         !tune0, //#NOTUNE
         tune0, //#ISTUNE
         hist_inv(h, t, n, skip, min, max, prec, tune0),
-        !cont(h.el[h.rounds], h.rem[h.rounds], min, max),
+        stop(h.el[h.rounds], h.rem[h.rounds], min, max),
         calls == t * sum(h.size),
         !tune0 ==> forall|r: int| 0 <= r < h.rounds ==> #[trigger] h.size[r] == mode_size(mode0) as int,
     ensures
         // C03, explicit sample size s: s*T calls per round, T samples per round
         !tune0 ==> calls == (mode_size(mode0) as int) * t * h.rounds && recorded(h, t, tune0) == t * h.rounds,
-        //#BEGIN CONT
+        //#BEGIN CONT,CONT3
         // C03: with no time limit reached and min_time passed by then, exactly ceil(n/T) rounds,
         // hence T*ceil(n/T) samples and s*T*ceil(n/T) calls
         !tune0 && (forall|r: int| 0 <= r <= h.rounds && r <= ceil_div(n, t) ==> #[trigger] h.el[r] < max)
@@ -894,7 +919,7 @@ pub proof fn lemma_conclusions(h: Hist, t: int, n: int, skip: bool, min: int, ma
     if !tune0 {
         lemma_sum_const(h.size, mode_size(mode0) as int);
         assert(t * ((mode_size(mode0) as int) * h.rounds) == (mode_size(mode0) as int) * t * h.rounds) by (nonlinear_arith);
-        //#BEGIN CONT
+        //#BEGIN CONT,CONT3
         let c = ceil_div(n, t);
         if (forall|r: int| 0 <= r <= h.rounds && r <= c ==> #[trigger] h.el[r] < max) && (c <= h.rounds ==> h.el[c] >= min) {
             if h.rounds < c {
@@ -907,7 +932,7 @@ pub proof fn lemma_conclusions(h: Hist, t: int, n: int, skip: bool, min: int, ma
                 lemma_ceil(n, t, c);
                 assert(c >= 0) by { vstd::arithmetic::div_mod::lemma_div_pos_is_pos(n + t - 1, t); }
                 assert(h.rem[c] == rem_at(h, t, n, tune0, c));
-                assert(cont(h.el[c], h.rem[c], min, max));
+                assert(stay(h.el[c], h.rem[c], min, max));
                 assert(false);
             }
         }
@@ -986,9 +1011,9 @@ VERIFY = {
 }
 
 TAGS = {
-    "C03": {"CONT", "REM", "NOTUNE"},
+    "C03": {"CONT3", "REM", "NOTUNE"},
     "C04": {"CONT", "REM", "EL", "NOTUNE"},
-    "C19": {"MAXT", "TUNE", "ISTUNE"},
+    "C19": {"CONT19", "MAXT", "TUNE", "ISTUNE"},
 }
 
 
@@ -1061,7 +1086,101 @@ mod verif_loop_mode {
 """
 
 
-def loop_kani(which: str) -> KaniSpec:
+KANI_PICK = r"""
+#[cfg(kani)]
+mod verif_loop_pick {
+    use super::*;
+    use crate::time::{Timer, TscTimestamp};
+    use std::num::NonZeroU64;
+    // the two expressions of bench_loop_threaded, text copied from the function on every run
+    fn slowest<'x>(raw_samples: &'x [RawSample]) -> &'x RawSample { let slowest_sample = @SLOWEST@; slowest_sample }
+    fn latest(raw_samples: &[RawSample]) -> Timestamp { let last_end = @LASTEND@; last_end }
+
+    fn any_sample() -> RawSample {
+        // 1 THz counter: one tick is one picosecond
+        let a: u8 = kani::any(); let b: u8 = kani::any();
+        RawSample {
+            start: Timestamp::Tsc(TscTimestamp { value: a as u64 }), end: Timestamp::Tsc(TscTimestamp { value: b as u64 }),
+            timer: Timer::Tsc { frequency: NonZeroU64::new(1_000_000_000_000).unwrap() },
+            alloc_info: Default::default(), counter_totals: [0; KnownCounterKind::COUNT],
+        }
+    }
+    // at 1 THz the real duration_since is (b - a) picoseconds, 0 if b < a; the 128-bit multiply/divide is cut out (see C11 for it)
+    fn stub_duration_since(this: TscTimestamp, earlier: TscTimestamp, _f: NonZeroU64) -> FineDuration {
+        FineDuration { picos: this.value.saturating_sub(earlier.value) as u128 }
+    }
+    /// the "slowest sample" of a round is one of the round's samples and none lasted longer
+    #[kani::proof]
+    #[kani::unwind(5)]
+    #[kani::stub(crate::time::timestamp::tsc::TscTimestamp::duration_since, stub_duration_since)]
+    fn slowest_is_a_maximum() {
+        let n: usize = 3;
+        let samples = [any_sample(), any_sample(), any_sample()];
+        let r = slowest(&samples[..n]);
+        let mut member = false;
+        for s in &samples[..n] {
+            assert!(s.duration() <= r.duration(), "[SLOWEST] a sample of the round lasted longer than the one picked as slowest");
+            if std::ptr::eq(s, r) { member = true; }
+        }
+        assert!(member, "[SLOWEST] the slowest sample is one of the round's samples");
+        kani::cover!(n == 3 && samples[0].duration() < samples[1].duration() && samples[2].duration() < samples[1].duration());
+    }
+    /// the round's "last end" is the end timestamp of one of its samples and none ended later
+    #[kani::proof]
+    #[kani::unwind(5)]
+    fn latest_end_is_a_maximum() {
+        let n: usize = 3;
+        let samples = [any_sample(), any_sample(), any_sample()];
+        let r = latest(&samples[..n]);
+        let mut member = false;
+        for s in &samples[..n] {
+            assert!(s.end <= r, "[LASTEND] a sample of the round ended after the timestamp picked as latest end");
+            if s.end == r { member = true; }
+        }
+        assert!(member, "[LASTEND] the latest end is the end timestamp of one of the round's samples");
+        kani::cover!(n == 3 && samples[0].end < samples[1].end && samples[2].end < samples[1].end);
+    }
+}
+"""
+
+
+def pick_kani(S, which: str, errs: list):
+    """Kani shims for the two `;`-free expressions the Verus unit replaces by slowest_of / latest_end_of."""
+    want = {"C03": [], "C04": ["slowest_is_a_maximum", "latest_end_is_a_maximum"], "C19": ["slowest_is_a_maximum"]}[which]
+    if not want or S is None:
+        return None
+    try:
+        b = S(BENCH)
+        f = b.find_fn("bench_loop_threaded", impl=r"impl<'a> BenchContext<'a>")
+        body = f.body_text() if hasattr(f, "body_text") else b.text[f.start:f.end]
+        m1 = re.findall(RX_SLOWEST, body); m2 = re.findall(RX_LASTEND, body)
+        if len(m1) != 1 or len(m2) != 1:
+            raise rsx.LostAnchor(f"bench_loop_threaded: slowest_sample / last_end bindings found {len(m1)} / {len(m2)} times, expected 1 / 1")
+    except rsx.LostAnchor as e:
+        errs.append(str(e)); return None
+    text = KANI_PICK.replace("@SLOWEST@", m1[0].strip()).replace("@LASTEND@", m2[0].strip())
+    covers = {"slowest_is_a_maximum": "the expression bound to `slowest_sample` in bench_loop_threaded (text copied into a shim)",
+              "latest_end_is_a_maximum": "the expression bound to `last_end` in bench_loop_threaded (text copied into a shim)"}
+    hs = [KaniHarness("verif_loop_pick::" + h, "bounded", bound="rounds of 3 samples (3 threads), TSC timestamps below 256 ticks at 1 THz", covers=covers[h]) for h in want]
+    sp = KaniSpec(injections={BENCH: text}, harnesses=hs,
+                  stubs_note=["the slowest-sample / latest-end expressions run in a shim function holding their text, not inside bench_loop_threaded",
+                              "TscTimestamp::duration_since -> (b - a) ps saturating (its value at the harness's 1 THz) in slowest_is_a_maximum; the real one is C11's subject"])
+    sp.tag = "pick"
+    return sp
+
+
+def loop_kani(which: str, S=None, errs=None):
+    sp = _loop_kani(which)
+    p = pick_kani(S, which, errs if errs is not None else [])
+    if p is not None:   # same scratch copy and the same cargo kani run
+        for k, v in p.injections.items():
+            sp.injections[k] = sp.injections.get(k, "") + v
+        sp.harnesses += p.harnesses
+        sp.stubs_note += p.stubs_note
+    return [sp]
+
+
+def _loop_kani(which: str) -> KaniSpec:
     hs = [
         KaniHarness("verif_loop_opts::has_samples", "complete", covers="BenchOptions::has_samples"),
         KaniHarness("verif_loop_opts::time_accessors", "complete", covers="BenchOptions::min_time / max_time (assumed in the Verus unit)"),
@@ -1077,7 +1196,7 @@ def loop_kani(which: str) -> KaniSpec:
 LOOP_ASSUMPTIONS = [
     "ASSUMED contract run_round: one round = one raw sample per thread (thread_count of them), each taken with `timer`; replaces barrier + record_sample closure + ThreadPool::par_extend + Option<RawSample> unwrapping (pinned text)",
     "ENVIRONMENT ASSUMPTION inside run_round: a sample of 2^31 or more iterations outlasts 101 x timer precision (so doubling cannot overflow u32)",
-    "ASSUMED contract slowest_of / latest_end_of: return an element of the round (the slowest / the latest end); replaces iterator max_by_key / map+max (pinned text)",
+    "ASSUMED contract slowest_of / latest_end_of: return an element of the round (the slowest / the latest end); they replace whatever `;`-free expression is bound to slowest_sample / last_end, and that expression's text is checked by the bounded Kani shims verif_loop_pick::* (C04, C19)",
     "ASSUMED Timer::precision() > 0 (measure_precision discards zero samples), Timestamp::start / duration_since and RawSample::duration as uninterpreted clock functions",
     "ASSUMED BenchOptions::min_time()/max_time() return the options in picoseconds (checked by Kani verif_loop_opts::time_accessors)",
     "push_input_counts, CounterCollection::clear_input_counts, TimedOverhead::total_overhead, ThreadAllocTallyMap::is_empty, ignore_alloc_reset: opaque, no contract used",
